@@ -20,8 +20,8 @@ from pathlib import Path
 from . import tlc
 
 ROOT = Path(__file__).resolve().parent.parent
-EVIDENCE_DIR = ROOT / "evidence"
-REPLAY_DIR = ROOT / "replays"
+EVIDENCE_DIR = Path(os.environ.get("VERIF_EVIDENCE_DIR") or (ROOT / "evidence"))
+REPLAY_DIR = Path(os.environ["VERIF_EVIDENCE_DIR"]) / "replays" if os.environ.get("VERIF_EVIDENCE_DIR") else ROOT / "replays"
 KNOWN_FILE = ROOT / "known_findings.json"
 NCPU = min(16, os.cpu_count() or 4)
 
@@ -287,7 +287,7 @@ def report(ctx, *, failures, matchers, evaluations, distinct_nontrivial, rule, s
         "wall_s": round(time.time() - ctx.t0, 2),
         "violations": nviol,
     }
-    EVIDENCE_DIR.mkdir(exist_ok=True)
+    EVIDENCE_DIR.mkdir(parents=True, exist_ok=True)
     (EVIDENCE_DIR / f"{ctx.prop}.json").write_text(json.dumps(ev, indent=1, ensure_ascii=True, sort_keys=True))
     print(f"{ctx.prop} {ctx.tier}: model states={states} transitions={trans}; impl evaluations={evaluations}; "
           f"trace records validated={ctx.trace_records}; known={sum(len(v) for v in known.values())} "
